@@ -136,6 +136,26 @@ func c01Deliver(c *deliverCtx) {
 			w.stats.inc(eapProbe[p.EAP.Kind])
 		}
 	}
+	if c.key != nil && w.step%4 == 1 {
+		// the caller edits the message it was given (builds its reply in place), then the identical datagram
+		// arrives again (retransmission): it must decode to the original again, not to the caller's edits
+		c.msg.Flags ^= 0x20
+		c.msg.MessageID++
+		if len(c.msg.Payloads) > 0 {
+			c.msg.Payloads = c.msg.Payloads[:len(c.msg.Payloads)-1]
+		}
+		rx := RxOpts{}
+		if c.s.Rx != nil {
+			rx = *c.s.Rx
+		}
+		m2, r2 := unprotect(rxBuffer(c.wire, rx.Spare), c.key, c.toRole, rx.PreHdr, rx.Hdr28, rx.HdrOther)
+		if r2.class() != "ok" {
+			w.violate("redelivery_after_callers_edit_fails", r2.class(), "the identical genuine datagram is refused the second time (%s %v %s)", r2.class(), r2.Err, r2.Panic)
+		} else if diff := specDiff(d.Spec, extract(m2)); diff != "" {
+			w.violate("redelivery_returns_callers_edits", diff, "decoding the identical datagram again returns a message that reflects the caller's edits to the first result (at %s)", diff)
+		}
+		w.stats.inc("probe_redelivery_after_callers_edit")
+	}
 	if d.NilKey {
 		// with no SA keys the entry point behaves as plain decode
 		m2 := new(message.IKEMessage)
@@ -178,6 +198,7 @@ func adversarialRand(r *Rng, prev *RandScript) *RandScript {
 func genRx(r *Rng) *RxOpts {
 	rx := &RxOpts{PreHdr: r.Bool()}
 	rx.Hdr28 = rx.PreHdr && r.Chance(1, 4)
+	rx.HdrOther = rx.PreHdr && r.Chance(1, 4)
 	if r.Chance(1, 2) {
 		rx.Spare = Pick(r, 1, 16, 64, 512)
 	}
